@@ -6,7 +6,8 @@ gen:   hand model (coq/C10/C10_model.v).  The only generated file is C10_gen.v: 
        witnesses as the `…_refuted` theorems) on the implementation and judging it with a brute-force oracle.
 prove: coq/C10/*.v — `query_refines_spec` (all histories) for the corrected configuration, `…_partial` for any
        configuration, `…_refuted` for each pinned flag, selection theorems.
-tie:   random operation histories (SetPoints / SetWeights / Query / GetItem) over Grid (1-D array, N×1, N×2, N×3),
+tie:   random operation histories (SetPoints / SetWeights / Query / GetItem / Enter = continue on the selected grid; plus,
+       judged by the oracle only, a follow-up query ON a returned LocalGrid) over Grid (1-D array, N×1, N×2, N×3),
        OneDGrid, AtomGrid, MolGrid, UniformGrid / Tensor1DGrids and PeriodicGrid (selection only), integer
        coordinates; the list of observations is compared inside Coq (vm_compute) with `run ball_ref impl_cfg …`.
        The oracle hypothesis `oracle_ok` is validated against scipy's cKDTree; `slice_indices` against Python's
@@ -126,6 +127,8 @@ def coq_op(o) -> str:
         r = o["radius"]
         rr = {"inf": "RInf", "neg": "RNeg", "nan": "RNan"}[r] if isinstance(r, str) else f"(RFin {zc(r['k'])})"
         return f"(Query {coq_centre(o['centre'])} {rr})"
+    if o["op"] == "enter":
+        return f"(Enter {coq_index(o['index'])})"
     return f"(GetItem {coq_index(o['index'])})"
 
 
@@ -233,25 +236,27 @@ def observe_sel(parent, child) -> tuple:
 
 
 def apply_op(g, o, flat) -> tuple:
-    """Run one operation on the implementation; returns the canonical observation."""
+    """Run one operation on the implementation; returns (canonical observation, returned grid object or None)."""
     f = lambda x: np.array(x, dtype=float)  # noqa: E731
     try:
         if o["op"] == "setpoints":
             v = f([r[0] for r in o["value"]]) if o["flat"] else f(o["value"])
             g.points = v
-            return ("done",)
+            return ("done",), None
         if o["op"] == "setweights":
             g.weights = f(o["value"])
-            return ("done",)
+            return ("done",), None
         if o["op"] == "query":
             c = o["centre"]
             cen = float(c["scalar"]) if "scalar" in c else f(c["vec"])
             r = o["radius"]
             rad = {"inf": np.inf, "neg": -1.5, "nan": float("nan")}[r] if isinstance(r, str) else r["r"]
-            return observe_local(g, g.get_localgrid(cen, rad), flat)
-        return observe_sel(g, g[py_index(o["index"])])
+            lg = g.get_localgrid(cen, rad)
+            return observe_local(g, lg, flat), lg
+        child = g[py_index(o["index"])]
+        return observe_sel(g, child), child
     except Exception as e:  # noqa: BLE001 - the exception class IS the observation
-        return canon_exc(e)
+        return canon_exc(e), None
 
 
 # ---------------------------------------------------------------------------------------------- brute-force oracle
@@ -284,6 +289,8 @@ def judge(g, o, flat, ob, extra):
     except Unencodable:
         return ("skip", "non-integer state")
     n = len(W)
+    if n == 0:
+        return ("skip", "empty grid")
     if o["op"] == "query":
         c, r = o["centre"], o["radius"]
         if ("scalar" in c) != flat or ("vec" in c and len(c["vec"]) != len(pub[0])):
@@ -294,7 +301,7 @@ def judge(g, o, flat, ob, extra):
         exp = [(i, pub[i], W[i]) for i in range(n) if r == "inf" or dist2(pub[i], cv) <= r["k"]]
         want = ("local", c, exp)
         return ("ok",) if ob == want else ("fail", want)
-    if o["op"] == "getitem":
+    if o["op"] in ("getitem", "enter"):
         l = py_select(n, o["index"])
         if l is None:
             return ("skip", "invalid index")
@@ -317,6 +324,7 @@ class History:
     def __init__(self, desc, ops):
         self.desc, self.ops = desc, ops
         self.obs, self.verdicts, self.why = [], [], []
+        self.sub = {}   # step -> observation of the follow-up query ON the returned local grid (judged by the oracle only)
         self.unenc = None
 
     def key(self, upto=None):
@@ -341,9 +349,17 @@ class History:
             self.extra = None
         built = stale = False
         for o in self.ops:
-            ob = apply_op(g, o, self.flat)
+            ob, obj = apply_op(g, o, self.flat)
             v = judge(g, o, self.flat, ob, self.extra)
             why = None
+            if o["op"] == "query" and "sub" in o and v[0] == "ok" and ob[0] == "local" and ob[2]:
+                # a LocalGrid is a grid: a query on it must answer for ITS points and weights, whatever its parent did before
+                so = {"op": "query", "centre": o["sub"]["centre"], "radius": o["sub"]["radius"]}
+                ob2, _ = apply_op(obj, so, self.flat)
+                v2 = judge(obj, so, self.flat, ob2, None)
+                if v2[0] == "fail":
+                    self.sub[len(self.obs)] = ob2
+                    v = v2
             if v[0] == "fail":  # which flagged defect could explain it (checked against the flags later)
                 if o["op"] == "query":
                     if kind == "AtomGrid":
@@ -360,6 +376,9 @@ class History:
                 built = True
             if o["op"] == "setpoints" and ob == ("done",) and built:
                 stale = True
+            if o["op"] == "enter" and ob[0] == "sel" and ob[2]:
+                g = obj            # the history continues on the selected grid, which starts without a tree
+                built = stale = False
             self.obs.append(ob)
             self.verdicts.append(v)
             self.why.append(why)
@@ -371,6 +390,11 @@ class History:
         return (f"check impl_cfg {CLS[self.kind]} {bl(self.flat)} {self.dim}%nat {pts(self.pub0)} {zl(self.w0)} "
                 f"{pt(self.c0)} {coq_extra(self.extra)} [{'; '.join(coq_op(o) for o in ops)}] "
                 f"[{'; '.join(coq_obs(ob) for ob in obs)}]")
+
+    def seen(self, j):
+        """What was observed at step j, for reports (the follow-up query on the local grid if that is what failed)."""
+        return ("on the returned local grid, get_localgrid(%s, %s): " % (self.ops[j]["sub"]["centre"], self.ops[j]["sub"]["radius"])
+                + short(self.sub[j])) if j in self.sub else short(self.obs[j])
 
     def script(self, upto=None):
         return {"grid": self.desc, "ops": self.ops if upto is None else self.ops[: upto + 1]}
@@ -437,6 +461,23 @@ def gen_ops(rng, desc, pub, flat, maxlen):
     selectable = kind in SELECTABLE
     periodic = kind == "PeriodicGrid"
     ops = []
+
+    def gen_index():
+        m = rng.random()
+        if m < 0.2:
+            return {"int": ri(-n - 1, n)}
+        if m < 0.38:
+            return {"npint": ri(-n - 1, n), "dtype": rng.choice(["int64", "int32", "intp"])}
+        if m < 0.62:
+            b = lambda: None if rng.random() < 0.35 else ri(-n - 2, n + 2)  # noqa: E731
+            st = None if rng.random() < 0.4 else rng.choice([-3, -2, -1, 1, 2, 3, 0] if rng.random() < 0.2 else [-3, -2, -1, 1, 2, 3])
+            return {"slice": [b(), b(), st]}
+        if m < 0.82:
+            hi = n if rng.random() < 0.1 else n - 1
+            return {"array": [ri(-n, hi) for _ in range(ri(0, n + 1))]}
+        k = n + (rng.choice((-1, 1)) if rng.random() < 0.1 else 0)
+        return {"mask": [rng.random() < 0.5 for _ in range(max(k, 0))]}
+
     for _ in range(ri(1, maxlen)):
         u = rng.random()
         if periodic:
@@ -479,7 +520,14 @@ def gen_ops(rng, desc, pub, flat, maxlen):
                 rad = "inf"
             else:
                 rad = rng.choice(["neg", "nan"])
-            ops.append({"op": "query", "centre": centre, "radius": rad})
+            o = {"op": "query", "centre": centre, "radius": rad}
+            if rng.random() < 0.25:
+                # follow-up query ON the returned local grid (it is a grid in its own right)
+                c2 = list(rng.choice(cur)) if rng.random() < 0.6 else [x + ri(-1, 1) for x in c]
+                d2 = sorted({dist2(p, c2) for p in cur})
+                o["sub"] = {"centre": {"scalar": c2[0]} if flat else {"vec": c2},
+                            "radius": rng.choice([radius_of(rng.choice(d2)), radius_of(ri(0, 30)), {"k": 0, "r": 0.0}, "inf"])}
+            ops.append(o)
         elif what == "setpoints":
             m = rng.random()
             if m < 0.3:
@@ -510,22 +558,18 @@ def gen_ops(rng, desc, pub, flat, maxlen):
             k = n + (rng.choice((-1, 1)) if rng.random() < 0.1 and n > 1 else 0)
             ops.append({"op": "setweights", "value": [ri(-9, 9) for _ in range(k)]})
         else:
-            m = rng.random()
-            if m < 0.2:
-                ix = {"int": ri(-n - 1, n)}
-            elif m < 0.38:
-                ix = {"npint": ri(-n - 1, n), "dtype": rng.choice(["int64", "int32", "intp"])}
-            elif m < 0.62:
-                b = lambda: None if rng.random() < 0.35 else ri(-n - 2, n + 2)  # noqa: E731
-                s = None if rng.random() < 0.4 else rng.choice([-3, -2, -1, 1, 2, 3, 0] if rng.random() < 0.2 else [-3, -2, -1, 1, 2, 3])
-                ix = {"slice": [b(), b(), s]}
-            elif m < 0.82:
-                hi = n if rng.random() < 0.1 else n - 1
-                ix = {"array": [ri(-n, hi) for _ in range(ri(0, n + 1))]}
-            else:
-                k = n + (rng.choice((-1, 1)) if rng.random() < 0.1 else 0)
-                ix = {"mask": [rng.random() < 0.5 for _ in range(max(k, 0))]}
-            ops.append({"op": "getitem", "index": ix})
+            ix = gen_index()
+            op = "getitem"
+            if rng.random() < 0.45:
+                # continue the history ON the selected grid (a non-empty selection the constructor accepts)
+                for _ in range(6):
+                    l = py_select(n, ix)
+                    if l and not (kind == "OneDGrid" and desc["domain"] is not None
+                                  and any(not desc["domain"][0] <= cur[i][0] <= desc["domain"][1] for i in l)):
+                        op, cur, n = "enter", [cur[i] for i in l], len(l)
+                        break
+                    ix = gen_index()
+            ops.append({"op": op, "index": ix})
     return ops
 
 
@@ -875,8 +919,10 @@ def run(ctx: Ctx):
                                                             else "exact-tie" if r["r"] == math.isqrt(r["k"]) else "finite"))
                 if ob[0] == "local" and not ob[2]:
                     ctx.count("query:empty-result")
-            elif tag == "getitem":
+            elif tag in ("getitem", "enter"):
                 tag += ":" + next(iter(o["index"]))
+            if "sub" in o:
+                ctx.count("op:query-on-local-grid")
             ctx.count("op:" + tag)
             ctx.count("verdict:" + v[0])
             if ob[0] == "err":
@@ -914,8 +960,8 @@ def run(ctx: Ctx):
         fails = [j for j in range(step + 1) if h.verdicts[j][0] == "fail" and (h.why[j] is None or flags[h.why[j]] or j == step)]
         if fails:
             j = fails[-1]
-            ctx.fail("corr_history", h.key(j), short(h.obs[j]),
-                     f"{h.kind}: step {j} ({coq_op(h.ops[j])}) observed {short(h.obs[j])}, the property requires {short(h.verdicts[j][1])}"
+            ctx.fail("corr_history", h.key(j), h.seen(j),
+                     f"{h.kind}: step {j} ({coq_op(h.ops[j])}) observed {h.seen(j)}, the property requires {short(h.verdicts[j][1])}"
                      f" (model and implementation disagree on {len(bad)} histories)",
                      {"history": h.script(j), "observed_full": h.obs[j], "expected": h.verdicts[j][1]})
         else:
@@ -942,8 +988,8 @@ def run(ctx: Ctx):
             unexplained += 1
             if unexplained > MAXREP:
                 continue
-            ctx.fail("query_refines_spec" if h.ops[j]["op"] == "query" else "getitem_spec", h.key(j), short(h.obs[j]),
-                     f"{h.kind}: step {j} ({coq_op(h.ops[j])}) observed {short(h.obs[j])}, the property requires {short(v[1])}",
+            ctx.fail("query_refines_spec" if h.ops[j]["op"] == "query" else "getitem_spec", h.key(j), h.seen(j),
+                     f"{h.kind}: step {j} ({coq_op(h.ops[j])}) observed {h.seen(j)}, the property requires {short(v[1])}",
                      {"history": h.script(j), "observed_full": h.obs[j], "expected": v[1]})
 
     # ---------------- float perturbation histories (judged on the implementation by an exact-rational oracle)
